@@ -204,9 +204,9 @@ theorem fat_countList : (ps : List Particle) → ∀ (path : List PathE) (next :
 end
 
 theorem list_needed_core (p : Particle) (hd : (names p).Nodup) (hwf : wf p = true)
-    (hlive : live p = true) (ss : List Site) (h : occurs (sites p) = some ss) (s : Site)
-    (hs : s ∈ ss) (hl : s.isList = true) : ∃ w, Matches p w ∧ 2 ≤ w.count s.name := by
-  obtain ⟨s', hs', hname, hmax, _⟩ := mem_occurs_sites hd h hs
+    (hlive : live p = true) (s : Site)
+    (hs : s ∈ occurs (sites p)) (hl : s.isList = true) : ∃ w, Matches p w ∧ 2 ≤ w.count s.name := by
+  obtain ⟨s', hs', hname, hmax, _⟩ := mem_occurs_sites hd hs
   obtain ⟨q, hq, hcount⟩ := fat_count p [] 1 s' hs'
   rw [List.nil_append] at hq
   subst hq
